@@ -14,34 +14,56 @@ ID = "C02"
 USES_SHRINK = True
 CASE_TIMEOUT = 60
 SCHEMES = ["explicit_euler", "generalized_rush_larsen", "hybrid_rush_larsen"]
-RULE = """Models: modelgen.gen_model (1-5 states, 0-5 parameters incl. value expressions like 1/4, 2*pi, exp(1); 0-8 intermediates;
-components; all grammar features in rotation) plus a fixed list of one-line probe models (integer-literal quotients and exponents
-1/4, x**(1/2), x**(3/2); Mod/floor/abs with negative operands and negative divisors; nested conditionals; And/Or with 2-4 operands;
-Not/Eq; unary minus / power precedence).  For each model gotran2c.get_code(format none, schemes explicit_euler +
+RULE = """Two kinds of models.  (1) GENERAL models: modelgen.gen_model(c_safe=True) (1-5 states, 0-5 parameters incl. value expressions, 0-8
+intermediates, components, all grammar features in rotation, a fraction with intermediates that mention a d<state>_dt name) and the
+hand-written GENERAL_PROBES.  They never touch a KNOWN defect class of the C back end: every integer literal is written as a float
+(7.0 / 2.0, x**(1.0/2.0); literal exponents x**2 stay), no quotient has two C-int operands, Mod only has syntactically positive
+operands, no abs() has floor() inside, no comparison has the same name on both sides (sympy would fold it to a bare true / false); a
+general model whose loaded expressions nevertheless contain a bare boolean constant is skipped (counted in info).  A failure of a
+general model therefore always means something else is wrong: C02:value-mismatch:<construct>, C02:scheme-mismatch:<scheme>,
+C02:init:value-mismatch, C02:compile-error:..., C02:c-crash:no-integer-quotient.  (2) DEDICATED probe models (DEFECT_PROBES), one line
+each, for the known classes: integer-literal quotients / exponents (also in parameter defaults), Mod / fmod with negative operands,
+abs() of integer-valued expressions, Mod of two integer-valued operands, bare boolean constants.  Whether a text is in known-defect
+territory is decided from the text itself (modelgen.c_unsafe + boolean constants in the loaded expressions), so stored failures
+replay without extra keys; in territory a mismatch is named by re-evaluating the reference under the hypothesised C semantics
+(C02:c-integer-division, C02:c-fmod-sign, C02:c-integer-division+fmod-sign), by the C source line (C02:c-int-abs), else
+C02:known-defect-territory:<classes>:value-mismatch:<construct>.  For each model gotran2c.get_code(format none, schemes explicit_euler +
 generalized_rush_larsen + hybrid_rush_larsen(stiff = first state)) is compiled with `gcc -shared -fPIC -O0` and loaded with ctypes.
 One case = one (model, point) at which init_state_values / init_parameter_values / NUM_* constants / index functions are compared
-with the reference reading of the text, rhs and monitor_values with the reference evaluator (rtol 1e-9), and the three schemes (dt in
-{0.01, 1}) with the NumPy module generated from the same model (rtol 1e-9).  Points where the NumPy module itself disagrees with
-the reference in the same way are skipped (C01's domain).  A mismatch is named by re-evaluating the reference under the hypothesised
-C semantics (integer division of integer literals, fmod sign); otherwise the model is shrunk and named after its main construct.
-Non-trivial: model has >= 1 intermediate or nesting depth >= 2 and rhs != 0; distinct by sha1(text, point)."""
+with the reference reading of the text, rhs and monitor_values with the reference evaluator (rtol 1e-9, atol 1e-12 x (1 + largest
+operand)), and the three schemes (dt in {0.01, 1}) with the NumPy module generated from the same model.  Points where the NumPy module
+itself disagrees with the reference in the same way are skipped (C01's domain).  Non-trivial: model has >= 1 intermediate or nesting
+depth >= 2 and rhs != 0; distinct by sha1(text, point)."""
 
-PROBES = [
-    "1/4*x", "x*1/4", "x**(1/2)", "x**(3/2)", "(x**2 + 1)**(1/3)", "2/3 + y", "3/2*y", "x/3", "x**2/2", "1/4", "2**(1/2)", "7/2*x - 1/3",
-    "Mod(x, 3)", "Mod(-x, 3)", "Mod(x, -3)", "Mod(-x, -3)", "Mod(y, 0.7)", "Mod(x*y, 2) - Mod(x, y)",
-    "floor(x)", "floor(-x)", "floor(x/2)", "floor(-x/2)", "abs(x)", "abs(-x)", "abs(x - 5)", "Abs(y)*x", "abs(floor(x))", "abs(floor(x) - 3)", "floor(abs(x))",
-    "Conditional(Lt(x, 1), Conditional(Gt(y, 3), 1, 2), Conditional(Le(y, 2), 3, 4))", "Conditional(Lt(x, 0), Conditional(Lt(y, 0), 1, 2), 3)",
-    "Conditional(And(Gt(x, 0), Lt(y, 1)), 1, 2)", "Conditional(And(Gt(x, 0), Lt(y, 1), Ge(x, 0.5)), 1, 2)", "Conditional(And(Gt(x, 0), Lt(y, 1), Ge(x, 0.5), Le(y, 0.2)), 1, 2)",
-    "Conditional(Or(Lt(x, 0), Gt(y, 2)), 1, 2)", "Conditional(Or(Lt(x, 0), Gt(y, 2), Ge(x, 5)), 1, 2)", "Conditional(Not(Lt(x, y)), 1, 2)", "Conditional(Not(Eq(x, y)), 1, 2)",
-    "Conditional(Eq(x, 2), 1, 2)", "Conditional(Not(And(Lt(x, 0), Gt(y, 0))), x, y)", "Conditional(Or(And(Lt(x, 0), Gt(y, 0)), Ge(x, 3)), x, y)",
-    "Lt(x, y) + 1", "Gt(x, 1)*Lt(y, 3)*5", "ContinuousConditional(Gt(x, 1), 2, 3, 0.5)", "ContinuousConditional(Le(x, y), x, y, 2)",
-    "-x**2", "2**-x", "x**y", "x**-2", "(-x)**2", "x**2**0.5", "x - -y", "x/-y**2", "exp(-x)*log(y**2 + 1) + ln(y**2 + 2)", "sqrt(y**2) + sin(x)*cos(y) - tan(0.3*x)",
-    "asin(0.3*sin(x)) + acos(0.2*cos(y)) - atan(x*y)", "pi*x", "t*x + time", "1e300*x*1e-300", "x**3", "x**4.0", "x**0.5", "x**(-1/2)", "1/x**2", "x/y/2", "1/(1/4)",
+# ---- dedicated probes of the KNOWN C defect classes (each group has its own signatures) -----------------------------------------------
+DEFECT_PROBES = {
+    "int-quotient": ["1/4*x", "x*1/4", "x**(1/2)", "x**(3/2)", "(x**2 + 1)**(1/3)", "2/3 + y", "3/2*y", "1/4", "2**(1/2)", "7/2*x - 1/3", "x**(-1/2)", "x**(1/3)", "1/3*x",
+                     "7 / 2 * ContinuousConditional(Gt(x, 1), 2, 3, 0.5)", "7 / 2 * Conditional(Lt(x, y), x, y)", "Conditional(Lt(x, y), 1, 2)/Conditional(Lt(x, 0), 3, 4)", "Lt(x, y)/2",
+                     "1 - 1/4", "(1 + 2)/4*x", "1/(1/4)", "x/3", "x**2/2", "3/x", "(x + 1)/2"],
+    "mod-sign": ["Mod(x, 3)", "Mod(-x, 3)", "Mod(x, -3)", "Mod(-x, -3)", "Mod(y, 0.7)", "Mod(x*y, 2) - Mod(x, y)", "abs(Mod(x, 2))", "Mod(x, 2.0)*3.5", "7 / 2 * Mod(x, 2)"],
+    "int-abs": ["abs(floor(x))", "abs(floor(x) - 3)", "Abs(floor(x)*2.0)", "abs(floor(x)*floor(y))", "sqrt(abs(floor(x)))"],
+    "int-mod": ["Mod(floor(x), 2)", "Mod(floor(x) + 7, 3)"],
+    "bool-constant": ["Eq(2, 2E1)", "Gt(2 + x, x)", "Conditional(Eq(2, 0.1), x, y)", "Lt(1, 2)*x", "Le(x, x + 1) + y"],
+}
+# ---- general probes: no known-defect class is touched (asserted by the territory analysis at run time) --------------------------
+GENERAL_PROBES = [
+    "1.0/4.0*x", "x*1.0/4.0", "x**(1.0/2.0)", "x**(3.0/2.0)", "(x**2 + 1.0)**(1.0/3.0)", "7.0 / 2.0 * ContinuousConditional(Gt(x, 1.0), 2.0, 3.0, 0.5)", "x/3.0", "x**2/2.0",
+    "Mod(abs(x) + 1.0, 3.0)", "Mod(y**2 + 0.5, 0.7)", "Mod(exp(0.1*x), (1.0 + y**2))", "Mod(abs(x*y), 2.0) - Mod(x**2, (abs(y) + 0.5))",
+    "floor(x)", "floor(-x)", "floor(x/2.0)", "floor(-x/2.0)", "abs(x)", "abs(-x)", "abs(x - 5.0)", "Abs(y)*x", "floor(abs(x))", "floor(x)*abs(y)", "floor(x)/2.0", "floor(x)**2",
+    "Conditional(Lt(x, 1.0), Conditional(Gt(y, 3.0), 1.0, 2.0), Conditional(Le(y, 2.0), 3.0, 4.0))", "Conditional(Lt(x, 0.0), Conditional(Lt(y, 0.0), 1.0, 2.0), 3.0)",
+    "Conditional(And(Gt(x, 0.0), Lt(y, 1.0)), 1.0, 2.0)", "Conditional(And(Gt(x, 0.0), Lt(y, 1.0), Ge(x, 0.5)), 1.0, 2.0)", "Conditional(And(Gt(x, 0.0), Lt(y, 1.0), Ge(x, 0.5), Le(y, 0.2)), 1.0, 2.0)",
+    "Conditional(Or(Lt(x, 0.0), Gt(y, 2.0)), 1.0, 2.0)", "Conditional(Or(Lt(x, 0.0), Gt(y, 2.0), Ge(x, 5.0)), 1.0, 2.0)", "Conditional(Not(Lt(x, y)), 1.0, 2.0)", "Conditional(Not(Eq(x, y)), 1.0, 2.0)",
+    "Conditional(Eq(x, 2.0), 1.0, 2.0)", "Conditional(Not(And(Lt(x, 0.0), Gt(y, 0.0))), x, y)", "Conditional(Or(And(Lt(x, 0.0), Gt(y, 0.0)), Ge(x, 3.0)), x, y)",
+    "Lt(x, y) + 1.0", "Gt(x, 1.0)*Lt(y, 3.0)*5.0", "Lt(x, y)/2.0", "ContinuousConditional(Gt(x, 1.0), 2.0, 3.0, 0.5)", "ContinuousConditional(Le(x, y), x, y, 2.0)",
+    "-x**2", "2.0**-x", "x**y", "x**-2", "(-x)**2", "x**2**0.5", "x - -y", "x/-y**2", "exp(-x)*log(y**2 + 1.0) + ln(y**2 + 2.0)", "sqrt(y**2) + sin(x)*cos(y) - tan(0.3*x)",
+    "asin(0.3*sin(x)) + acos(0.2*cos(y)) - atan(x*y)", "pi*x", "t*x + time", "1e300*x*1e-300", "x**3", "x**4.0", "x**0.5", "x**(-1.0/2.0)", "1.0/x**2", "x/y/2.0", "1.0/(1.0/4.0)",
+    "cos(acos(0.0*x))", "a*dy_dt + x",
 ]
 
 
-def probe_text(e):
-    return f"parameters(a=2.0, b=1/4, c=-3/2)\nstates(x=1.5, y=2.0)\nw0 = {e}\ndx_dt = w0 + a\ndy_dt = b - y + c\n"
+def probe_text(e, defect=False):
+    pars = "a=2.0, b=1/4, c=-3/2" if defect == "init" else "a=2.0, b=0.25, c=-1.5"
+    return f"parameters({pars})\nstates(x=1.5, y=2.0)\nw0 = {e}\ndx_dt = w0 + a\ndy_dt = b - y + c\n"
 
 
 PROBE_POINTS = [
@@ -55,11 +77,61 @@ PROBE_POINTS = [
 
 def cases(tier, seed, focus):
     n = 260 if tier == "quick" else 3000
-    for e in PROBES:
-        yield {"ode": probe_text(e), "points": PROBE_POINTS, "tags": ["C02"]}
-    for i in range(n):
+    fixed = [{"ode": probe_text("x*y", defect="init"), "points": PROBE_POINTS[:1], "probe": "init-int-quotient", "tags": ["C02:init"]}]
+    groups = dict(DEFECT_PROBES, general=GENERAL_PROBES)
+    for j in range(max(len(v) for v in groups.values())):  # round robin over the groups: every dedicated class is reached early
+        for grp, exprs in groups.items():
+            if j < len(exprs):
+                tags = ["C02:value-mismatch", "C02:scheme-mismatch", "C02"] if grp == "general" else ["C02:c-", "C02:compile-error", "C02:known-defect-territory", "C02:codegen-raises"]
+                fixed.append({"ode": probe_text(exprs[j]), "points": PROBE_POINTS, "probe": grp, "tags": tags})
+
+    def gen(i):
         k = seed * 100003 + i
-        yield {"mseed": k, "opts": {"force": list(mg.feature_cycle(k)), "int_states": i % 3 == 0}, "npts": 4, "tags": ["C02"]}
+        return {"mseed": k, "opts": {"force": list(mg.feature_cycle(k)), "int_states": i % 3 == 0, "c_safe": True, "deriv_ref": 0.15}, "npts": 4, "tags": ["C02:value-mismatch", "C02:scheme-mismatch", "C02"]}
+
+    gi = 0
+    for c in fixed:  # fixed probes interleaved 1:2 with generated general models
+        yield c
+        for _ in range(2):
+            if gi < n:
+                yield gen(gi)
+                gi += 1
+    while gi < n:
+        yield gen(gi)
+        gi += 1
+
+
+def has_bool_const(e) -> bool:
+    """a bare true / false in a loaded sympy expression (other than the closing `True` condition of a Piecewise)"""
+    import sympy
+
+    if e is sympy.true or e is sympy.false:
+        return True
+    if isinstance(e, sympy.Piecewise):
+        last = len(e.args) - 1
+        for i, pair in enumerate(e.args):
+            ex, c = pair.args
+            if has_bool_const(ex):
+                return True
+            if i == last and c is sympy.true:
+                continue
+            if has_bool_const(c):
+                return True
+        return False
+    return any(has_bool_const(a) for a in getattr(e, "args", ()))
+
+
+def territory(ref, ode=None) -> list:
+    """KNOWN C defect classes the model is in: syntactic classes of modelgen.c_unsafe + 'bool-constant' (sympy folded a
+    comparison of the loaded model to a bare true / false)"""
+    terr = set(ref.c_unsafe())
+    if ode is not None:
+        try:
+            if any(has_bool_const(a.expr) for a in tuple(ode.intermediates) + tuple(ode.state_derivatives)):
+                terr.add("bool-constant")
+        except Exception:  # noqa: BLE001
+            pass
+    return sorted(terr)
 
 
 def check(case):
@@ -73,8 +145,11 @@ def check(case):
     text = c["ode"]
     shr = not case.get("_noshrink")
     res["sample"] = {"ode": text, "points": c["points"][:1]}
+    terr = []
 
     def add(kind, what, inp, exp=None, act=None, detail="", base=None):
+        if not terr:
+            inp = dict(inp, general=True)
         f = cm.fail(f"C02:{kind}", what, inp, exp, act, detail)
         if shr and base:
             f["_shrink"] = {"base": f"C02:{base}"}
@@ -84,6 +159,15 @@ def check(case):
         ode = cm.load(text)
     except Exception as e:  # noqa: BLE001
         cm.note(res, f"skipped:loader-rejects:{cm.exc_name(e)}")
+        return res
+    terr = territory(ref, ode)
+    tprefix = f"known-defect-territory:{'+'.join(terr)}:" if terr else ""
+    if terr and ("mseed" in case or case.get("probe") == "general" or case.get("general")):
+        # a general model (or a shrinking candidate of a failing one: stored inputs of general models carry "general": true) must not be
+        # in known-defect territory: generated ones only get there when sympy folds a comparison to a bare boolean constant
+        cm.note(res, f"skipped:general-model-in-known-defect-territory:{'+'.join(terr)}")
+        if case.get("probe") == "general":
+            res["errors"].append(f"GENERAL_PROBES entry is in known-defect territory {terr}: {text!r}")
         return res
     stiff = [ref.state_names[0]]
     try:
@@ -106,7 +190,7 @@ def check(case):
             add(f"codegen-raises:{cm.exc_site(e.exc)}", "C code generation raises although NumPy generation succeeds", {"ode": text}, "C source", cm.exc_name(e.exc), str(e), base=f"codegen-raises:{cm.exc_site(e.exc)}")
         else:
             kind = f"compile-error:{cm.compile_key(e.exc, set(ref.states) | set(ref.params) | set(ref.assigns))}"
-            add(kind, "generated C does not compile with gcc -shared -fPIC -O0", {"ode": text}, "compiles", str(e.exc), e.detail, base=kind)
+            add(kind, "generated C does not compile with gcc -shared -fPIC -O0" + (f" (model in known-defect territory {terr})" if terr else ""), {"ode": text}, "compiles", str(e.exc), e.detail, base=kind)
         return res
     with cmod:
         # ---- static part: counts, index functions, init values -----------------------------
@@ -124,10 +208,10 @@ def check(case):
                 if names and cmod.index(which, names[0] + "_nope") != -1:
                     add(f"{which}-index-accepts-unknown", f"{which}_index does not return -1 for an unknown name", inp0, -1, cmod.index(which, names[0] + "_nope"))
             for fn, got, want in (("init_state_values", cmod.init_states(), s0), ("init_parameter_values", cmod.init_params(), p0)):
-                bad = {k: got.get(k) for k in want if not cm.close(got.get(k, math.nan), want[k], 1e-12)}
+                bad = {k: got.get(k) for k in want if not cm.vclose(got.get(k, math.nan), want[k], 0.0, 1e-12)}
                 if bad:
                     exprs = {k: (ref.states.get(k) or ref.params.get(k)).expr_text for k in bad}
-                    kind = "init:c-integer-division" if all(_intdiv_explains(exprs[k], bad[k]) for k in bad) else "init:value-mismatch"
+                    kind = "init:c-integer-division" if "int-quotient" in terr and all(_intdiv_explains(exprs[k], bad[k]) for k in bad) else tprefix + "init:value-mismatch"
                     add(kind, f"{fn} stores a value different from the declared default ({exprs})", inp0, {k: want[k] for k in bad}, bad, base=kind)
         except be.Stage as e:
             add(f"static-call-raises:{cm.exc_name(e.exc)}", "calling an index/init function fails", inp0, None, str(e))
@@ -146,7 +230,10 @@ def check(case):
             inp = {"ode": text, "points": [pt]}
             if nontriv_model and any(want[f"d{s}_dt"] != 0 for s in ref.states):
                 res["nontrivial"].append(cm.sha([text, pt]))
-            atol = 1e-13 * scale + 1e-300
+            atol = cm.ref_atol(scale)
+            if not terr and "mod-negative-operand" in ref.last_flags:
+                cm.note(res, "skipped:general-model-point-with-negative-Mod-operand")
+                continue
             try:
                 np_mon = npm.monitor_values(pt)
             except be.Stage:
@@ -171,14 +258,16 @@ def check(case):
                     bad[f"rhs[{s}]"] = v
             if bad:
                 names = [n for n in bad if n in ref.assigns] or [f"d{n[4:-1]}_dt" for n in bad]
-                kind = diagnose(ref, pt, {n: bad[n] for n in bad if n in ref.assigns}, atol)
-                if kind is None and any(re.search(r"(?<![A-Za-z_])abs\(", ln) for ln in c_lines(cmod.code, names)):
-                    kind = "c-int-abs"
-                if kind is None and "Mod" not in ref.features() and any(re.search(r"(?<![\w.])\(?-?\d+\)?/\(?-?\d+\)?(?![\w.])", ln) for ln in c_lines(cmod.code, names)):
-                    kind = "c-integer-division"  # an integer-literal quotient is printed on the failing line
-                kind = kind or f"value-mismatch:{cm.main_feature(text, names)}"
+                kind = None
+                if terr:  # only a model in known-defect territory can be explained by a known defect
+                    kind = diagnose(ref, pt, {n: bad[n] for n in bad if n in ref.assigns}, atol, terr)
+                    if kind is None and "int-abs" in terr and any(re.search(r"(?<![A-Za-z_])abs\(", ln) for ln in c_lines(cmod.code, names)):
+                        kind = "c-int-abs"
+                    if kind is None and "int-quotient" in terr and "mod-sign" not in terr and any(re.search(r"(?<![\w.])\(?-?\d+\)?/\(?-?\d+\)?(?![\w.])", ln) for ln in c_lines(cmod.code, names)):
+                        kind = "c-integer-division"  # an integer-literal quotient is printed on the failing line
+                kind = kind or f"{tprefix}value-mismatch:{cm.main_feature(text, names)}"
                 add(kind, f"C rhs/monitor_values differ from the reference for {sorted(bad)[:3]}", inp, {n: want.get(n) for n in names}, bad,
-                    "C lines: " + "; ".join(c_lines(cmod.code, names))[:500], base="value-mismatch" if kind.startswith("value-mismatch") else kind)
+                    "C lines: " + "; ".join(c_lines(cmod.code, names))[:500], base="value-mismatch" if kind.startswith("value-mismatch") else None if terr else kind)
                 if shr:
                     break
                 continue
@@ -198,7 +287,7 @@ def check(case):
                         continue
                     badk = {k: b[k] for k in a if not cm.close(a[k], b[k], 1e-9, 1e-9 * abs(pt["states"][k]) + atol)}
                     if badk:
-                        kind = f"scheme-mismatch:{sch}"
+                        kind = f"{tprefix}scheme-mismatch:{sch}"
                         add(kind, f"C {sch}(dt={dt}) differs from the NumPy module although rhs agrees", dict(inp, dt=dt), {k: a[k] for k in badk}, badk,
                             "C lines: " + "; ".join(c_lines(cmod.code, [f"d{k}_dt_linearized" for k in badk], fn=sch))[:500], base=kind)
                         break
@@ -210,8 +299,13 @@ def on_crash(case):
     try:
         c = cm.materialize(case)
         res["evals"] = 1
-        res["failures"].append(cm.fail("C02:c-crash", "calling the compiled C functions kills the process (signal, e.g. SIGFPE from an integer division by zero)",
-                                       {"ode": c["ode"], "points": c["points"]}, "values", "process died"))
+        try:
+            terr = territory(mg.RefModel(c["ode"]))
+        except Exception:  # noqa: BLE001
+            terr = []
+        sig = "C02:c-crash" if "int-quotient" in terr else "C02:c-crash:no-integer-quotient"
+        res["failures"].append(cm.fail(sig, "calling the compiled C functions kills the process (signal, e.g. SIGFPE from an integer division by zero)" + ("" if "int-quotient" in terr else " - and the model has no integer-literal quotient"),
+                                       dict({"ode": c["ode"], "points": c["points"]}, **({} if terr else {"general": True})), "values", "process died"))
     except Exception as e:  # noqa: BLE001
         res["errors"].append(f"worker crash and cannot materialize: {e}")
     return res
@@ -225,11 +319,14 @@ def _intdiv_explains(expr_text, got):
         return False
 
 
-def diagnose(ref, pt, bad, atol):
-    """does a hypothesised C semantics reproduce every wrong value?"""
+def diagnose(ref, pt, bad, atol, terr=("int-quotient", "mod-sign")):
+    """does a hypothesised C semantics (of a class the model is in) reproduce every wrong value?"""
     if not bad:
         return None
-    for kind, sw in (("c-integer-division", {"int_div": True}), ("c-fmod-sign", {"c_fmod": True}), ("c-integer-division+fmod-sign", {"int_div": True, "c_fmod": True})):
+    for kind, sw, need in (("c-integer-division", {"int_div": True}, {"int-quotient"}), ("c-fmod-sign", {"c_fmod": True}, {"mod-sign"}),
+                           ("c-integer-division+fmod-sign", {"int_div": True, "c_fmod": True}, {"int-quotient", "mod-sign"})):
+        if not need <= set(terr):
+            continue
         try:
             alt, _ = ref.evaluate(pt["t"], pt["states"], pt["params"], names=list(bad), **sw)
         except mg.RefError:
